@@ -69,6 +69,9 @@ func init() {
 		chkTok := IssueCheck(B, "n4", types.CurrentChainID, h0+3, PayTokA, e18(10), PayTokA, "pw")
 		chkPoor := IssueCheck(C, "n5", types.CurrentChainID, h0+3, 0, e18(50), 0, "pw")
 		good := send("A->B 10 BIP", A, B.Addr, 0, e18(10), 0)
+		sendFee := I(DistinctCommission().Send)
+		cAll := new(big.Int).Sub(e18(50), sendFee) // carol's balance minus the fee of a plain send
+		cAll1 := new(big.Int).Add(cAll, big.NewInt(1))
 		trunc := good.Render(0)
 		w := &World{
 			P:          lab.Params{StakePeriod: 12, OrdersPeriod: 4, InitialHeight: BaseHeight + 1},
@@ -82,8 +85,8 @@ func init() {
 			send("A->B 10 BIP gas COINA", A, B.Addr, 0, e18(10), PayCoinA),
 			send("A->B 10 BIP gas TOKA", A, B.Addr, 0, e18(10), PayTokA),
 			send("A->B whole balance (fee missing)", A, B.Addr, 0, e18(1000000), 0),
-			send("C->A balance-fee", C, A.Addr, 0, pip("49990000000000000000"), 0),
-			send("C->A balance-fee+1", C, A.Addr, 0, pip("49990000000000000001"), 0),
+			send("C->A balance-fee", C, A.Addr, 0, cAll, 0),
+			send("C->A balance-fee+1", C, A.Addr, 0, cAll1, 0),
 			send("A->B 10 COINA gas COINA", A, B.Addr, PayCoinA, e18(10), PayCoinA),
 			send("D->A 1 BIP (no funds)", D, A.Addr, 0, e18(1), 0),
 			send("C->A 1 BIP gas TOKA", C, A.Addr, 0, e18(1), PayTokA),
